@@ -205,7 +205,7 @@ func hRunPointers(g *hPW) {
 	g.create(1<<uA|1<<uR1, true, x.h[0])
 	g.createS(0)
 	g.createS(1 << uA)
-	steps := 2 + vTier()
+	steps := 2
 	for s := 0; s < steps; s++ {
 		g.step(vChoice("op", hNPtrOps))
 		g.checkRefs()
